@@ -344,6 +344,29 @@ def getTriviaParams (t : TrivOpt) (neg : Bool) : Option TParams :=
       else some ⟨c1, s1, n1, c2, s2, n2⟩
     | _, _ => none
 
+/-! ### option resolution (fst_options.py: `get_option`, `set_options`, `options()`): per call > thread default as changed by
+`set_options()` and by enclosing `with FST.options()` blocks (which restore the value they replaced on exit) -/
+
+structure OptState (α : Type) where
+  cur   : α            -- the thread default of the option
+  saved : List α       -- values to restore when the enclosing `with FST.options(...)` blocks exit
+deriving Repr
+
+inductive OptOp (α : Type) where
+  | set (v : α)        -- FST.set_options(opt=v)
+  | enter (v : α)      -- with FST.options(opt=v):
+  | exit               -- end of the innermost with block
+
+def OptState.step {α : Type} (s : OptState α) : OptOp α → OptState α
+  | .set v => { s with cur := v }
+  | .enter v => ⟨v, s.cur :: s.saved⟩
+  | .exit => match s.saved with
+    | [] => s
+    | x :: r => ⟨x, r⟩
+
+/-- `get_option(option, options)`: the value passed to the call if the key is present, else the thread default -/
+def effective {α : Type} (call : Option α) (s : OptState α) : α := call.getD s.cur
+
 /-- suffix `(?:[+-](?:\d+)?)?$` -/
 def sufOk : List Char → Bool
   | [] => true
